@@ -28,10 +28,14 @@ func load(r *rt.Runtime) (rt.Value, func()) {
 		r.SetEnvGoFunc(pkg, "setupvalue", setupvalue, 3, false),
 		r.SetEnvGoFunc(pkg, "upvaluejoin", upvaluejoin, 4, false),
 		r.SetEnvGoFunc(pkg, "setmetatable", setmetatable, 2, false),
-		r.SetEnvGoFunc(pkg, "sethook", sethook, 4, false),
 		r.SetEnvGoFunc(pkg, "traceback", traceback, 3, false),
 		r.SetEnvGoFunc(pkg, "upvalueid", upvalueid, 2, false),
 	)
+
+	// A hook outlives the runtime context in which it is installed and then
+	// runs in whichever context is current: installing one complies with no
+	// restriction.
+	r.SetEnvGoFunc(pkg, "sethook", sethook, 4, false)
 
 	return pkgVal, nil
 }
